@@ -421,3 +421,5 @@ def run(ctx):
 def run_thorough(ctx):
     # A8: clauses enforced by the type system itself, witnessed by compile_fail doctests with compiling twins
     ctx.witness("R16.5", ['ExecFieldsPrivate'])
+    import winrules
+    winrules.c16_shell(ctx)
